@@ -200,7 +200,8 @@ def render(n, ids=True, depth=0):
     if k == "InitListExpr":
         return "{%s}" % ", ".join(r(x) for x in c)
     if k == "VarDecl":
-        return "%s#%d" % (n.get("n"), n.get("d", -1))
+        nm = "%s#%d" % (n.get("n"), n.get("d", -1)) if ids else str(n.get("n"))
+        return "%s = %s" % (nm, r(c[0])) if c else nm
     return "%s(%s)" % (k, ", ".join(r(x) for x in c))
 
 
